@@ -70,7 +70,11 @@ func NewExec(prop string, cfg Config) *Exec {
 			n = 2
 		}
 		for i := 0; i < n; i++ {
-			ex.Twins = append(ex.Twins, NewWorld(cfg))
+			tw := NewWorld(cfg)
+			// the first twin is a node whose process restarts before every step: same stores, empty
+			// process memory, registrations redone as at application start
+			tw.RebootEachStep = i == 0
+			ex.Twins = append(ex.Twins, tw)
 		}
 	}
 	return ex
